@@ -79,6 +79,12 @@ def build_stream(g, rng, small):
     elif corrupt == "short-tail":
         parts.append(ref.frame(b"x" * 80)[:rng.randrange(1, 80)])
     stream = b"".join(parts)
+    if corrupt in ("magic", "length", "length-max+1", "stray-magic") and rng.random() < 0.45:
+        # the stream ENDS right after the corrupted frame header (4..8 bytes of it): the refusal is due in the very read
+        # that brings those bytes, whatever else that read completed before them
+        k = rng.choice([4, 5, 8]) if corrupt in ("magic", "stray-magic") else 8
+        stream = b"".join(parts[:at]) + parts[at][:k]
+        corrupt += "-then-end"
     return {"stream": stream, "corrupt": corrupt, "at": at, "ids": ids, "names": names}
 
 
